@@ -143,6 +143,11 @@ func (o Oracle) RunCase(c *core.Case, chunks, perStratum, uniform int) {
 		}
 		if maint == "crash-again" {
 			c.Count("second_crashes_executed", 1)
+			for _, a := range out.Verify.Actions {
+				if strings.HasPrefix(a, "imm:") {
+					c.Count("second_crashes_with_recovered_memtables_waiting."+a, 1)
+				}
+			}
 		}
 		switch o.ID {
 		case "C09":
